@@ -36,11 +36,13 @@ Scale(s, b4) == (s * b4) \div 4
 \* ---- term predicates for multi-term queries ---------------------------------
 IsPrefixOf(p, t) == Len(p) <= Len(t) /\ SubSeq(t, 1, Len(p)) = p
 
+\* the letter codes are ordered as the concrete characters: a b c < o < t < e-acute < the astral ones
+LetterKey(c) == CASE c = 7 -> 36 [] c = 8 -> 33 [] OTHER -> 10 * c
 RECURSIVE SeqLess(_, _)
-SeqLess(a, b) ==      \* lexicographic order on terms (letter codes ordered as the concrete characters)
+SeqLess(a, b) ==      \* lexicographic order on terms
   IF a = <<>> THEN b # <<>>
   ELSE IF b = <<>> THEN FALSE
-  ELSE IF Head(a) # Head(b) THEN Head(a) < Head(b)
+  ELSE IF Head(a) # Head(b) THEN LetterKey(Head(a)) < LetterKey(Head(b))
   ELSE SeqLess(Tail(a), Tail(b))
 
 \* glob: letter code -1 is '?', -2 is '*', -3 is the character class [ab] (letter codes 1 and 2)
